@@ -24,7 +24,11 @@ def build_rt():
 
 
 def build_tu(name, src, rt):
-    return vlib.build(name, [src], flags=FLAGS, deps=_deps(), libs=[str(rt), "-ldl"])
+    import subprocess
+    try:
+        return vlib.build(name, [src], flags=FLAGS, deps=_deps(), libs=[str(rt), "-ldl"], timeout=1500)
+    except subprocess.TimeoutExpired:
+        raise vlib.Infra(f"compiling {name} timed out (machine overloaded?)")
 
 
 def run_bin(exe, only=(), timeout=300):
@@ -236,7 +240,7 @@ def prepare(ck, use_cache=False):
     # 6. simulation: random statements (<= 3 arguments, all kinds, full shape sets), two per thread
     nsim = 110 if quick else 1500
     r_s = tlc_codec(ck, "Sim", c, sim=True, simdepth=2 if quick else 3, maxstmts=2, maxargs=3, maxpending=2,
-                    dyn="{FALSE, FALSE, TRUE}" if False else "{FALSE, TRUE}", export=True, simulate=nsim, seed=ck.seed, workers=1)
+                    dyn="{FALSE, TRUE}", export=True, simulate=nsim, seed=ck.seed, workers=1)
     b_s = maximal(vlib.behaviours(r_s))
     # 7. self-test of the invariants: seeded spec bugs must be reported by TLC
     tlc_codec(ck, "Self_clear", c, pool="pairs", maxstmts=2, maxargs=1, clear="cstr_like_string",
